@@ -265,6 +265,7 @@ def plan_C12(run):
 def plan_C13(run):
     # spec -> code: the grammar of malformed arguments enumerated by TLC and replayed into the five classes
     mc.grammar(run, "grammar", ALL_KINDS, q(run, ["1-1", "2-1"], ["1-1", "2-1", "1-1-2"]))
+    campaign(run, "foreign-pairs", {"C13"}, lambda s, r: drivers.foreign_pairs(s, r))      # all 20 ordered (host, foreign) pairs
     n = q(run, 4, 120)
     campaign(run, "malformed-grammar", {"C13"}, lambda s, r: drivers.malformed_campaign(s, r, n))
     run.require_classes(["malformed", "raise:TypeError", "raise:ValueError", "ok", "op=win", "op=draw", "op=rank"], "malformed-grammar")
